@@ -277,12 +277,13 @@ def history_oracle(scen, params, recs):
     return None
 
 
-def run_stress(seed, rounds, timeout=300):
+def run_stress(seed, rounds, timeout=600, race=False):
     env = vlib.go_env()
-    p = subprocess.run([vlib.ELKH, "systress", str(seed), str(rounds)], stdout=subprocess.PIPE, stderr=subprocess.PIPE,
+    p = subprocess.run([vlib.ELKH + ("-race" if race else ""), "systress", str(seed), str(rounds)],
+                       stdout=subprocess.PIPE, stderr=subprocess.PIPE,
                        text=True, errors="replace", timeout=timeout, env=env)
     out = [l for l in p.stdout.split("\n") if l.startswith("H ")]
-    return p.returncode, out, p.stderr[-1500:]
+    return p.returncode, out, p.stderr[-3000:]
 
 
 def judge_histories(ctx, lines, seed):
@@ -550,6 +551,22 @@ def run(ctx):
             hist_ok = False
         nh += len(out)
         hist_ok &= judge_histories(ctx, out, seed)
+    if not ctx.quick:
+        # the same concurrent drivers under the Go race detector (unsynchronised access inside the wrappers)
+        okr, logr = vlib.build_harness(race=True)
+        if not okr:
+            ctx.obligation("go build -race of the harness", False, "build", logr[-500:])
+        else:
+            seed = ctx.rng.randint(1, 1 << 30)
+            rc, out, err = run_stress(seed, 30, race=True)
+            racy = "DATA RACE" in err
+            if racy or rc != 0:
+                ctx.violation("data-race" if racy else "stress-died", {"stress_seed": seed, "race": True},
+                              ("race detector report: " if racy else "exit %d: " % rc) + err[-1200:])
+                hist_ok = False
+            nh += len(out)
+            hist_ok &= judge_histories(ctx, out, seed)
+            ctx.stat("race-detector-histories", len(out))
     ctx.extra["histories_checked"] = nh
     ctx.obligation("recorded histories: okHistory accepts every history of the concurrent runs (%d)" % nh,
                    hist_ok and nh > 0, "correspondence")
